@@ -354,7 +354,7 @@ OBJ_TOKENS = [
 ]
 OBJ_TYPES = [Reg("Inner"), Ptr(Reg("Inner")), Ptr(Ptr(Reg("Inner"))), IFACE, Map(STR, IFACE), Map(STR, INT), Reg("One"), Reg("Tagged"),
              Reg("Node2"), Ptr(Reg("Node2")), Slice(Reg("Inner")), Slice(Ptr(Reg("Inner"))), Slice(IFACE), Reg("Outer"), Reg("Scalars"),
-             Reg("Empty"), INT, STR, Slice(INT), Map(INT, IFACE)]
+             Reg("Empty"), INT, STR, Slice(INT), Map(INT, IFACE), Map(IFACE, IFACE)]
 
 
 def ref_cases():
